@@ -8,7 +8,7 @@ def mc_subpkg(ctx, configs):
     for i, c in enumerate(configs):
         cases = os.path.join(ctx.scratch, "subpkg_scripts_%d.ndjson" % i)
         consts = {"NA": c["NA"], "NB": c.get("NB", 0), "MaxSteps": c["MaxSteps"], "MaxDup": c.get("MaxDup", 1),
-                  "MaxBad": c.get("MaxBad", 1), "MaxRestart": c.get("MaxRestart", 1), "Ticks": c.get("Ticks", "{}"), "Record": "TRUE", "Ver": c.get("Ver", 0)}
+                  "MaxBad": c.get("MaxBad", 1), "MaxRestart": c.get("MaxRestart", 1), "MaxPlain": c.get("MaxPlain", 1), "Ticks": c.get("Ticks", "{}"), "Record": "TRUE", "Ver": c.get("Ver", 0)}
         ctx.tlc("MC_SubPkg", constants=consts, env={"VERIF_OUT": cases}, workers=12, name="MC_SubPkg_%s" % json.dumps(c, sort_keys=True))
         res = os.path.join(ctx.scratch, "subpkg_res_%d.ndjson" % i)
         ctx.vh_ok(["extract-replay", cases, res], timeout=1500)
